@@ -181,7 +181,7 @@ def gen_plan_c16(seed, index, tier="quick"):
             prog = [r.choice(OPS) for _ in range(6)]
             sweep = "all"
     cluster = {
-        "brokers": r.choice([1, 2]), "topics": {"t0": {"partitions": 2}},
+        "brokers": r.choice([1, 2]), "topics": {"t0": {"partitions": 2}, "t1": {"partitions": 1}},
         "lat": [0.0001, r.choice([0.0005, 0.003])], "chunk": r.choice(["whole", "random"]),
         "service_time": r.choice([0.0, 0.0005]),
         "marker_delay": r.choice([[0.001, 0.005], [0.001, 0.03]]),
@@ -291,9 +291,16 @@ def execute_sweep(plan):
     variants = single_faults(requests, r, None if plan["sweep"] == "all" else plan.get("sweep_n", 3))
     sub = 1
     sigs = {res.get("sig")}
+    calls = base["producers"][0].get("calls", [])
+    if "send1" in calls and "t1" in base["cluster"]["topics"]:
+        variants.append({"class": "abortable", "acl": "t1"})
     for f in variants:
         p = dict(base)
-        p["faults"] = [{"on": f["on"], "do": f["do"]}]
+        if "acl" in f:
+            p["faults"] = []
+            p["acl"] = f["acl"]
+        else:
+            p["faults"] = [{"on": f["on"], "do": f["do"]}]
         p["fault_class"] = f["class"]
         r2 = execute_one(p)
         r2.pop("txn_requests", None)
@@ -325,6 +332,10 @@ def execute_one(plan):
     prop = plan["prop"]
     mode = plan["mode"]
     fault_class = plan.get("fault_class")
+    if plan.get("acl") and plan["acl"] in cl.topics:
+        # the producer may describe the topic but not write to it (Write ACL missing)
+        cl.topics[plan["acl"]].writable = False
+        world.count_fault("topic_not_writable:" + plan["acl"])
     txm = cl.txns
     obs = {"txns": [], "calls": [], "notes": [], "records": {}}
     state = {"producers": {}, "specs": {}, "killed": set(), "alive": set(), "serial": itertools.count(1)}
@@ -341,15 +352,15 @@ def execute_one(plan):
         v = f"{pid}/{txn.idx}/{next(state['serial'])}".encode()
         return v
 
-    async def do_send(pid, producer, txn, p, pad=0):
+    async def do_send(pid, producer, txn, p, pad=0, topic="t0"):
         value = new_value(pid, txn)
         rec = Rec()
-        rec.value, rec.tp, rec.producer, rec.txn = value, ("t0", p), pid, txn
+        rec.value, rec.tp, rec.producer, rec.txn = value, (topic, p), pid, txn
         rec.fut = None
         rec.error = rec.done_seq = None
         rec.ok = False
         try:
-            fut = await producer.send("t0", value + b"." * pad, partition=p)
+            fut = await producer.send(topic, value + b"." * pad, partition=p)
         except Exception as exc:  # noqa: BLE001
             txn.rejected.append((value, repr(exc)))
             obs["records"][value] = rec
@@ -485,8 +496,13 @@ def execute_one(plan):
             if op == "begin":
                 coro = producer.begin_transaction()
             elif op in ("send0", "send1"):
-                coro = do_send(pid, producer, cur if cur is not None else orphan,
-                               0 if op == "send0" else 1)
+                # send0 -> t0/0, send1 -> t1/0 (a second topic, so that one AddPartitionsToTxn
+                # request can carry an authorised and an unauthorised topic)
+                if op == "send0" or "t1" not in cl.topics:
+                    coro = do_send(pid, producer, cur if cur is not None else orphan,
+                                   0 if op == "send0" else 1)
+                else:
+                    coro = do_send(pid, producer, cur if cur is not None else orphan, 0, topic="t1")
             elif op == "offsets":
                 off = next(state["serial"]) * 10
                 coro = producer.send_offsets_to_transaction({TopicPartition("t0", 0): off},
@@ -1100,7 +1116,7 @@ def oracle_c16(plan, world, cl, obs, mon):
             latent_now, latent = latent, False
         else:
             latent_now = latent
-        if rel == "after" and latent_now and fc == "abortable" and st == "IN_TXN" \
+        if rel in ("after", "during") and latent_now and fc == "abortable" and st == "IN_TXN" \
                 and c["op"] in ("abort", "ctx_exc") and c["outcome"] == "ok":
             latent = False  # the transaction the error belonged to is gone
         if st == "ABORTABLE" or (rel == "after" and latent_now and fc == "abortable" and st == "IN_TXN"):
@@ -1121,8 +1137,11 @@ def oracle_c16(plan, world, cl, obs, mon):
                 viol("call_accepted_after_fatal_error", c, note="error reply delivered before the call")
             continue
         if rel == "during":
+            # in progress (or started within the grace window) when the error reply arrived:
+            # it may complete, raise that error, or already be refused by the new state
             world.probe("call_in_progress_at_fault")
-            if c["outcome"] == "raised" and c["exc"] not in ABORTABLE_EXC + FATAL_EXC and exp == "ok":
+            if c["outcome"] == "raised" and exp == "ok" and c["exc"] not in ABORTABLE_EXC + FATAL_EXC + (
+                    "IllegalOperation", "AssertionError"):
                 viol("call_raised_unrelated_error", c)
             continue
         # ---- plain protocol order (no error known to the producer yet)
